@@ -6,6 +6,8 @@ KindsNative == {"plugin", "unplug", "recompute"}
 KindsAll == {"plugin", "unplug", "recompute", "event"}
 PlacesSim == {"q", "h", "qh"}          \* pending, processed, one event object in both
 PlacesAll == {"q", "h", "qh", "qq"}    \* ... and the same event object added to the queue twice
+PlacesApart == {"q", "h"}               \* pending or processed, never both
+PlacesQueue == {"q", "qq"}              \* pending only (once or twice): all that matters below the network / the queue
 Ts01 == {0, 1}
 Ts012 == {0, 1, 2}
 ExtOff == {FALSE}
@@ -14,4 +16,5 @@ ExtBoth == {FALSE, TRUE}
 RootsAll == {"sim", "net", "queue", "evse", "ev", "batt", "event"}
 RootsSim == {"sim"}
 RootsSub == {"net", "queue", "evse", "ev", "batt", "event"}
+RootsNetQueue == {"net", "queue"}
 =============================================================================
